@@ -93,7 +93,7 @@ theorem not_handler_noop (s : State E) (hm : s.marked = false) (h : isHandler s 
       simp [hm, hb, this, C14.reasonStr] at h; exact absurd (by decide) h
 
 /-- an open pass with a handler reason always leaves an event pending: a PATCH or a sleep + touch -/
-theorem open_handle_pending (env : Env) (hni : idle env = false) (s : State E) (hh : isHandler s = true)
+theorem open_handle_pending (env : Env) (s : State E) (hh : isHandler s = true)
     (hc : (pass env s).closed = false) :
     ∃ now' w, handleTurn env s = nextState env s now' true w := by
   have hr : handlerReasons.contains (cfgOf env s).reason = true := hh
@@ -109,14 +109,12 @@ theorem open_handle_pending (env : Env) (hni : idle env = false) (s : State E) (
         unfold pass at hc
         rw [this] at hc
         cases hc
-    rcases hm with hm | hm
-    · rw [hni] at hm; cases hm
     have hnil := minDelay_none _ hm
     unfold pass at hnil hc
     rw [cycle_main _ _ _ _ _ hr hne] at hnil hc
     exact delays_ne_nil _ _ _ hc hnil
 
-theorem open_next (env : Env) (hni : idle env = false) (s : State E) (hp : s.pending = true) (hg : s.gone = false)
+theorem open_next (env : Env) (s : State E) (hp : s.pending = true) (hg : s.gone = false)
     (ha : adjusting env s = false) (hpm : env.prematch = true)
     (hh : isHandler s = true) (hc : (pass env s).closed = false) :
     ∃ now' w, loopStep env s = nextState env s now' true w := by
@@ -147,7 +145,7 @@ theorem open_next (env : Env) (hni : idle env = false) (s : State E) (hp : s.pen
     cases hdl : (pass env s).delays with
     | nil => exact hd hdl
     | cons a as => simp [hdl] at hrel
-  · obtain ⟨now', w, hx⟩ := open_handle_pending env hni s hh hc
+  · obtain ⟨now', w, hx⟩ := open_handle_pending env s hh hc
     exact ⟨now', w, by rw [h, hx]⟩
 
 
@@ -160,7 +158,7 @@ theorem noop_reason_str (env : Env) (s : State E) (h : (causeOf s).reason = .noo
 /-- When a turn of the loop ends with no event pending on an object that is not being deleted and that
     the framework is not blind to: the last-handled state is the essence, nothing initial is
     outstanding, no owned progress record is left, and the finalizer needs no adjustment. -/
-theorem quiescent_after_step (env : Env) (hni : idle env = false) (s : State E) (hp : s.pending = true) (hg : s.gone = false)
+theorem quiescent_after_step (env : Env) (s : State E) (hp : s.pending = true) (hg : s.gone = false)
     (hpm : env.prematch = true) (hmk : s.marked = false)
     (hq : (loopStep env s).pending = false) :
     (loopStep env s).base = some s.ess ∧
@@ -197,7 +195,7 @@ theorem quiescent_after_step (env : Env) (hni : idle env = false) (s : State E) 
         exact ⟨by simp [nextState, hc], by simp [nextState, hc], hnone, hg, hmk, hadjN _ _ _⟩
       · have hc' : (pass env s).closed = false := by simpa using hc
         by_cases hh : isHandler s = true
-        · obtain ⟨now', w, hx⟩ := open_handle_pending env hni s hh hc'
+        · obtain ⟨now', w, hx⟩ := open_handle_pending env s hh hc'
           rw [h, hx] at hq; cases hq
         · have hh' : isHandler s = false := by simpa using hh
           obtain ⟨hr, h1, h2⟩ := not_handler_noop s hmk hh'
@@ -255,7 +253,7 @@ theorem settled_event_no_write (env : Env) (t : State E) (hb : t.base = some t.e
 
 /-- a turn on a marked object either keeps it marked, blocked and pending — or ends with the own
     finalizer removed (and the object gone unless somebody else's finalizer holds it) -/
-theorem marked_step (env : Env) (hni : idle env = false) (s : State E) (hp : s.pending = true) (hg : s.gone = false)
+theorem marked_step (env : Env) (s : State E) (hp : s.pending = true) (hg : s.gone = false)
     (hmk : s.marked = true) (hbl : s.blocked = true) :
     ((loopStep env s).pending = true ∧ (loopStep env s).gone = false ∧ (loopStep env s).marked = true ∧
       (loopStep env s).blocked = true) ∨
@@ -277,7 +275,7 @@ theorem marked_step (env : Env) (hni : idle env = false) (s : State E) (hp : s.p
       cases hc : (pass env s).closed
       · rfl
       · have := hcm hc; rw [hmk] at this; cases this
-    obtain ⟨now', w, hx⟩ := open_handle_pending env hni s hh hc
+    obtain ⟨now', w, hx⟩ := open_handle_pending env s hh hc
     rw [h, hx]
     exact ⟨rfl, hg, hmk, hbl⟩
 
@@ -368,7 +366,7 @@ def toSteps (env : Env) : List (Tick × List Id) → List C02.StepV
   | [] => []
   | (a, l) :: rest => ⟨a, a, env.exec, l, env.limits, env.lifecycle⟩ :: toSteps env rest
 
-theorem invs_eq (env : Env) (hni : idle env = false) (hpm : env.prematch = true) (n : Nat) :
+theorem invs_eq (env : Env) (hpm : env.prematch = true) (n : Nat) :
     ∀ (s : State E), s.pending = true → s.gone = false → adjusting env s = false → isHandler s = true →
       invsOf env n s = invokedSeqV env.owned (C14.reasonStr (causeOf s).reason) s.P (toSteps env (stepsOf env n s)) := by
   induction n with
@@ -383,7 +381,7 @@ theorem invs_eq (env : Env) (hni : idle env = false) (hpm : env.prematch = true)
       have hc3 : (cycle (cfgAt env.owned (C14.reasonStr (causeOf s).reason)
           ⟨s.now, s.now, env.exec, selOf env s, env.limits, env.lifecycle⟩) s.P s.now s.now env.exec).closed = false := hc
       simp only [hc3, Bool.false_eq_true, if_false]
-      obtain ⟨now', w, h⟩ := open_next env hni s hp hg ha hpm hh hc
+      obtain ⟨now', w, h⟩ := open_next env s hp hg ha hpm hh hc
       have hcz : causeOf (loopStep env s) = causeOf s := by
         rw [h]; exact causeOf_congr s _ (by simp [nextState, hc]) rfl rfl (by simp [nextState, hc]) rfl rfl
       have hh' : isHandler (loopStep env s) = true := by unfold isHandler; rw [hcz]; exact hh
